@@ -1,5 +1,5 @@
 (* Property C15 - npy output conforms to NPY 1.0; reader of the numpy dtypes. *)
-From Sfs Require Import Index Npy Text NpyP TextP NpySpellP.
+From Sfs Require Import Index Npy Text NpyP TextP NpySpellP TextLayoutP.
 Close Scope string_scope. Open Scope N_scope.
 
 (* every shape: magic, version 1.0, little-endian u16 header length, dict, space padding, terminating newline; data starts at a multiple of 64 *)
